@@ -53,12 +53,48 @@ def box_map(draw, shape, k=5):
 
 @st.composite
 def label_map(draw, shape, k=5):
-    kind = draw(st.sampled_from(["free", "free", "box", "box", "box", "zero"]))
+    kind = draw(st.sampled_from(["free", "free", "free", "box", "box", "box", "box", "zero", "full"]))
     if kind == "free":
         return draw(free_map(shape, k=min(k, 4)))
     if kind == "box":
         return draw(box_map(shape, k=k))
+    if kind == "full":  # no background at all: one label everywhere, or two labels split along an axis
+        a = np.full(shape, 1, dtype=np.int64)
+        if draw(st.booleans()) and max(shape) > 1:
+            ax = draw(st.integers(0, len(shape) - 1))
+            if shape[ax] > 1:
+                cut = draw(st.integers(1, shape[ax] - 1))
+                sl = [slice(None)] * len(shape)
+                sl[ax] = slice(cut, None)
+                a[tuple(sl)] = 2
+        return a
     return np.zeros(shape, dtype=np.int64)
+
+
+@st.composite
+def many_small_pair(draw):
+    """10-30 small instances (two-digit label values) in a 1-D or 2-row map; the prediction is the
+    reference with per-instance perturbations."""
+    n = draw(st.integers(10, 30))
+    rows = draw(st.sampled_from([1, 2]))
+    width = 4 * n + 1
+    ref = np.zeros((rows, width), dtype=np.int64)
+    pred = np.zeros((rows, width), dtype=np.int64)
+    order = draw(st.permutations(list(range(1, n + 1)))) if draw(st.booleans()) else list(range(1, n + 1))
+    for i in range(n):
+        lab = order[i]
+        ref[:, 4 * i + 1:4 * i + 4] = lab
+        op = draw(st.sampled_from(["same", "same", "shrink", "shift", "drop", "relabel"]))
+        plab = lab if op != "relabel" else ((lab % n) + 1)
+        if op == "same" or op == "relabel":
+            pred[:, 4 * i + 1:4 * i + 4] = plab
+        elif op == "shrink":
+            pred[:, 4 * i + 1:4 * i + 3] = plab
+        elif op == "shift":
+            pred[:, 4 * i + 2:4 * i + 5] = plab
+    if rows == 1:
+        ref, pred = ref[0], pred[0]
+    return pred, ref
 
 
 def _shift(a, axis, d):
@@ -181,6 +217,13 @@ def derived_pred(draw, ref, nops=None):
 @st.composite
 def pair(draw, ndims=(1, 2, 3), k=5, max1=16, max2=8, max3=5, derived_weight=2):
     """(pred, ref) int64 arrays with small labels 0..~8."""
+    special = draw(st.integers(0, 24))
+    if special == 0 and (1 in ndims or 2 in ndims):
+        p_, r_ = draw(many_small_pair())
+        if p_.ndim in ndims:
+            return p_, r_
+    if special == 1:  # occasionally a larger array
+        max1, max2, max3 = max(max1, 40), max(max2, 20), max(max3, 8)
     shape = draw(shapes(ndims, max1, max2, max3))
     ref = draw(label_map(shape, k=k))
     kind = draw(st.sampled_from(["indep"] + ["derived"] * derived_weight + ["swap"]))
